@@ -309,6 +309,10 @@ def _random_case(rng, fac, sizes, collision=False):
     reqs = []
     for _ in range(rng.choice([1, 2, 3, 3, 4, 5, 6])):
         b = rng.choice(blocks)
+        if reqs and rng.random() < 0.06:
+            f, k = _fault(rng, fac, rng.randrange(nvol), b)
+            kinds.append("decay-" + k)
+            reqs.append(f)
         r = rng.random()
         if r < 0.30:
             reqs.append(f"G:{b.md5}")
@@ -448,6 +452,60 @@ def _oversize_case(rng, fac):
     return _mkcase(vols, reqs, kinds)
 
 
+def _fault(rng, fac, vol, b, kind=None, mode=None):
+    """a change of the stored bytes behind the server's back: X:<vol>:<hash>:<content>:<k|n>"""
+    kind = kind or rng.choice(["flip", "flip", "other-same-size", "trunc", "append", "other", "empty", "intact"])
+    if kind == "other-same-size":
+        c = fac.fresh(b.length)
+        if c.md5 == b.md5:
+            c, kind = _corrupt(rng, fac, b, "append")
+    else:
+        c, kind = _corrupt(rng, fac, b, kind)
+    return f"X:{vol}:{b.md5}:{c.spec}:{mode or rng.choice(['k', 'k', 'n'])}", kind
+
+
+def _decay_case(rng, fac, sizes):
+    """stored copies change between requests of one server process: a copy that was served (and so
+    verified) before decays without a change of size or timestamp, is replaced by another block of the
+    same size, is truncated / extended / emptied, or is repaired; on the mount that served it or on
+    another one; then the block is read again (GET and HEAD), re-PUT and read"""
+    nvol = rng.choice([1, 1, 2, 2, 3])
+    b = fac.fresh(0 if rng.random() < 0.05 else rng.choice(sizes))
+    h = b.md5
+    good = rng.randrange(nvol)
+    vols, kinds = [], []
+    for i in range(nvol):
+        if i == good or rng.random() < 0.25:
+            files, k = [(h, b)], "intact"
+        else:
+            c, k = _corrupt(rng, fac, b, rng.choice(KINDS))
+            files = [(h, c)] if c is not None else []
+        kinds.append(k)
+        vols.append((_volflags(rng), rng.choice([0, 1, 2]), files))
+    rd = lambda: rng.choice([f"G:{h}", f"G:{h}", f"H:{h}"])
+    reqs = [rd() for _ in range(rng.choice([1, 2, 2, 3]))]
+    # the mount whose copy was served is the first one holding an intact copy
+    served = next(i for i, k in enumerate(kinds) if k == "intact")
+    for rnd in range(rng.choice([1, 1, 2, 3])):
+        target = served if rng.random() < 0.7 else rng.randrange(nvol)
+        f, k = _fault(rng, fac, target, b)
+        kinds.append("decay-" + k)
+        reqs.append(f)
+        if rng.random() < 0.2:
+            f2, k2 = _fault(rng, fac, rng.randrange(nvol), b)
+            kinds.append("decay-" + k2)
+            reqs.append(f2)
+        reqs += [f"G:{h}", f"H:{h}"] if rng.random() < 0.7 else [rd()]
+        r = rng.random()
+        if r < 0.35:
+            reqs += [f"P:{h}:{b.spec}", rd()]
+        elif r < 0.5:
+            # repair behind the server's back, timestamp preserved
+            f3, _ = _fault(rng, fac, target, b, "intact", "k")
+            reqs += [f3, rd()]
+    return _mkcase(vols, reqs, kinds)
+
+
 def _chunking(rng, data):
     """random cut of `data` into reads, with occasional zero-length reads"""
     out, i = [], 0
@@ -506,6 +564,11 @@ def generate(rng, tier):
     n_random = 600 if tier == "quick" else 16000
     for i in range(n_random):
         cases.append(_random_case(rng, litf, sizes, collision=(i % 20 == 19)))
+    # copies that change between the requests of one server process (after having been served)
+    for i in range(60 if tier == "quick" else 1500):
+        cases.append(_decay_case(rng, litf, sizes))
+    for i in range(6 if tier == "quick" else 60):
+        cases.append(_decay_case(rng, symf, [1025, 4096, 65537, (1 << 20) + 1]))
     # exhaustive flip/truncation sweeps
     for n in ([rng.randint(1, 24)] if tier == "quick" else [1, 2, 16, 17, rng.randint(3, 64), 64]):
         cases += _sweep_cases(rng, litf, n)
@@ -606,6 +669,15 @@ def oracle(case, impl):
             return "malformed driver output"
         main, listing = res.split("|", 1)
         p = req.split(":")
+        if p[0] == "X":
+            # not a request: the stored bytes changed behind the server's back; the clauses below are
+            # evaluated against the listing the driver printed after the change
+            if main != "X":
+                return "malformed driver output"
+            state = _parse_listing(listing)
+            if len(state) != len(vols):
+                return "malformed driver output"
+            continue
         h = p[1]
         intact = [i for i, v in enumerate(state) if h in v and v[h][0] == h and 0 <= v[h][1] <= BLOCKSIZE]
         m = main.split(",")
@@ -660,8 +732,8 @@ def nontrivial_key(case, impl):
         return case if "," in case else None
     ks = _KINDS.get(case)
     if ks is None:
-        return case if (" P:" in case or ";P:" in case) else None
-    if any(k not in ("intact", "missing") for k in ks) or " P:" in case or ";P:" in case:
+        return case if (" P:" in case or ";P:" in case or ";X:" in case) else None
+    if any(k not in ("intact", "missing") for k in ks) or " P:" in case or ";P:" in case or ";X:" in case:
         return case
     return None
 
@@ -695,6 +767,8 @@ def describe(cases, impl):
             d["requests"][op] = d["requests"].get(op, 0) + 1
         if out:
             for r, res in zip(reqs, out.split(";")):
+                if r.startswith("X:"):
+                    continue
                 key = r.split(":", 1)[0] + res.split(",", 1)[0]
                 d["statuses"][key] = d["statuses"].get(key, 0) + 1
     return d
@@ -719,7 +793,7 @@ def neighbours(case, rng):
         flags, rest = v.split(":", 1)
         nf = {"w": "r", "r": "w", "wf": "w", "rf": "wf"}[flags]
         out.append(f"c01 {'/'.join(vols[:i] + [nf + ':' + rest] + vols[i + 1:])} {rs}")
-    hashes = sorted({r.split(":")[1] for r in reqs if ":" in r})
+    hashes = sorted({r.split(":")[2 if r.startswith("X:") else 1] for r in reqs if ":" in r})
     for h in hashes:
         out.append(f"c01 {vs} {';'.join(['G:' + h] + reqs + ['G:' + h, 'H:' + h])}")
     # fresh small random cases keep the search going when the disagreement is not local
